@@ -12,6 +12,7 @@ import (
 	"falcosim/sim/simsync"
 	"falcosim/sim/vclgen"
 	"falcosim/sim/worker"
+	"sync"
 
 	"github.com/ysugimoto/falco/v2/ast"
 	"github.com/ysugimoto/falco/v2/ast/codec"
@@ -256,12 +257,107 @@ func runC19Interleaved(c *worker.Ctx) {
 	}
 }
 
+// ---- deep nesting -------------------------------------------------------------
+//
+// A stream that, inside a valid statement, repeats one frame header 10³ to
+// 9·10⁶ times: for a frame type the decoder descends into, that is nesting as
+// deep, and a recursive decoder without a bound on its depth exhausts the
+// goroutine stack — a fatal error no recover() sees (the worker dies; the driver
+// re-runs the case alone and reports it). The frame type is drawn from all
+// byte values, so no list of "recursive" types is mirrored from the codec.
+
+var (
+	deepOnce                sync.Once
+	deepExprEnc, deepStmEnc []byte
+	deepExprAt, deepStmAt   int
+)
+
+func deepTemplates() {
+	deepOnce.Do(func() {
+		v, err := parseSource("sub vcl_recv { set req.http.X = ((\"a\")); }")
+		if err != nil {
+			panic("c19: deep template does not parse: " + err.Error())
+		}
+		enc, err := codec.NewEncoder().Encode(v.Statements[0])
+		if err != nil {
+			panic("c19: deep template does not encode: " + err.Error())
+		}
+		deepExprEnc = append([]byte{}, enc...)
+		// the grouped expression: the first frame after the operator's payload "="
+		deepExprAt = bytes.Index(deepExprEnc, []byte{0, 1, '='}) + 3
+		v, err = parseSource("sub vcl_recv { esi; }")
+		if err != nil {
+			panic("c19: deep template does not parse: " + err.Error())
+		}
+		sub := v.Statements[0].(*ast.SubroutineDeclaration)
+		enc, err = codec.NewEncoder().Encode(sub)
+		if err != nil {
+			panic("c19: deep template does not encode: " + err.Error())
+		}
+		deepStmEnc = append([]byte{}, enc...)
+		esi, err := codec.NewEncoder().Encode(sub.Block.Statements[0])
+		if err != nil || len(esi) < 3 {
+			panic("c19: deep template does not encode")
+		}
+		deepStmAt = bytes.Index(deepStmEnc, esi[:3])
+		if deepExprAt <= 0 || deepStmAt <= 0 {
+			panic("c19: deep templates: insertion points not found")
+		}
+	})
+}
+
+var deepFrameCounts = []int{1000, 499000, 600000, 3000000, 9000000}
+
+func runC19Deep(c *worker.Ctx) {
+	res := c.Res
+	deepTemplates()
+	enc, at, ctx := deepExprEnc, deepExprAt, "expression"
+	if c.T.Bool(1, 3) {
+		enc, at, ctx = deepStmEnc, deepStmAt, "statement"
+	}
+	t := byte(c.T.Draw(256))
+	if ctx == "expression" && c.T.Bool(1, 2) {
+		t = enc[at] // the grouped expression's own type: known to nest
+	}
+	n := deepFrameCounts[c.T.Draw(len(deepFrameCounts))]
+	closed := c.T.Bool(1, 2)
+	data := make([]byte, 0, len(enc)+3*n)
+	data = append(data, enc[:at]...)
+	data = append(data, bytes.Repeat([]byte{t, 0, 0}, n)...)
+	if closed {
+		data = append(data, enc[at:]...)
+	}
+	res.Sig = fmt.Sprintf("deep|%s|%02x|%d|%v", ctx, t, n, closed)
+	res.Nontrivial = true
+	res.Fault("deep_frame_nesting")
+	c.Logf("deep frames ctx=%s type=%02x n=%d closed=%v", ctx, t, n, closed)
+	got := decodeWith(data, simio.Plan{Chunk: "all", Terminal: "eof"}, c)
+	what := fmt.Sprintf("%d headers of frame type 0x%02x in %s position (%d bytes, rest of the statement %s)", n, t, ctx, len(data), map[bool]string{true: "follows", false: "missing"}[closed])
+	switch {
+	case got.panicV != nil:
+		res.Violate("C19/decode-total", "C19/decode-panic:deep:"+got.stack+":"+panicClass(got.panicV), fmt.Sprintf("decoder panicked on %s: %v", what, got.panicV))
+	case got.spin:
+		res.Violate("C19/decode-total", "C19/decode-spin:deep", "decoder kept reading >1000 times after EOF on "+what)
+	case got.err != nil:
+		res.Probe("deep_stream_rejected_with_error")
+	default:
+		res.Probe("deep_stream_decoded")
+	}
+	if c.Render {
+		res.Rendering = map[string]any{"mode": "deep frame nesting", "context": ctx, "frame_type": fmt.Sprintf("0x%02x", t), "headers": n, "bytes": len(data), "closed": closed, "decode_error": fmt.Sprint(got.err)}
+	}
+}
+
 func runC19(c *worker.Ctx) {
 	res := c.Res
 	mode := c.T.Draw(5) // 0 round trip, 1 faulty decode, 2 plugin request path, 3 corpus cut, 4 interleaved users (thinned)
 	if mode == 4 {
-		if c.T.Bool(1, 6) {
+		switch k := c.T.Draw(3000); {
+		case k < 500:
 			runC19Interleaved(c)
+			return
+		case k == 2999:
+			runC19Deep(c)
 			return
 		}
 		mode = c.T.Draw(3)
